@@ -1,11 +1,11 @@
 SPECIFICATION Spec
 CONSTANTS
   NMax = 3
-  L0S = {6,8}
+  L0S = {8}
   LShift = 4
-  CS = {1,2}
+  CS = {1}
   LMinAll = 0
-  TS = {1,2,3}
+  TS = {1}
   ChemPool = 3
   ChemLayout = "transposed_if_square"
   UnitAt = "return"
@@ -13,7 +13,7 @@ CONSTANTS
   EvalEffect = "readonly"
   ShareEffect = "readonly"
   RADS = {8}
-  GMS = {64,128}
+  GMS = {64}
   Slicing = "layer"
   Export = FALSE
 INVARIANT MixAlignedWithLayers
